@@ -148,4 +148,264 @@ theorem lexSrc_docWrapL (d : List Char) (hd : ∀ c ∈ d, docChar c = true)
   simp only [docWrapL, docValueL] at hbody ⊢
   simpa [cDQ, cSQ, List.append_assoc] using hbody
 
+
+/-! ### `repr(str)` always lexes back to the string -/
+
+
+theorem hexVal_hexDigit (k : Nat) (h : k < 16) : hexVal (hexDigit k) = some k := by
+  have : ∀ k : Fin 16, hexVal (hexDigit k.val) = some k.val := by decide
+  exact this ⟨k, h⟩
+
+theorem hexDigit_ge (k : Nat) (h : k < 16) : 48 ≤ (hexDigit k).toNat := by
+  have : ∀ k : Fin 16, 48 ≤ (hexDigit k.val).toNat := by decide
+  exact this ⟨k, h⟩
+
+theorem ofCode_toNat (c : Char) : ofCode c.toNat = some c := by
+  have hv := c.valid
+  have : c.toNat < 0xd800 ∨ (0xdfff < c.toNat ∧ c.toNat < 0x110000) := hv
+  simp [ofCode, this, Char.ofNat_toNat]
+
+
+theorem q_ne_bs {q : Char} (hq : q = cSQ ∨ q = cDQ) : q ≠ cBS := by
+  rcases hq with rfl | rfl <;> decide
+
+/-- `\xHH` -/
+theorem lexS_hex2 (q : Char) (c : Char) (hn : c.toNat < 256) (rest : List Char) :
+    lexS false q .esc ('x' :: (hex2 c.toNat ++ rest)) = emit c (lexS false q .norm rest) := by
+  have h1 := hexVal_hexDigit (c.toNat / 16 % 16) (Nat.mod_lt _ (by decide))
+  have h2 := hexVal_hexDigit (c.toNat % 16) (Nat.mod_lt _ (by decide))
+  have hsum : c.toNat / 16 % 16 * 16 + c.toNat % 16 = c.toNat := by omega
+  simp [hex2, lexS, escCase, escKind, cLF, cBS, cSQ, cDQ, hexCase, h1, h2, hsum, ofCode_toNat]
+
+/-- `\uHHHH` -/
+theorem lexS_hex4 (q : Char) (c : Char) (hn : c.toNat < 65536) (rest : List Char) :
+    lexS false q .esc ('u' :: (hex4 c.toNat ++ rest)) = emit c (lexS false q .norm rest) := by
+  have h1 := hexVal_hexDigit (c.toNat / 256 / 16 % 16) (Nat.mod_lt _ (by decide))
+  have h2 := hexVal_hexDigit (c.toNat / 256 % 16) (Nat.mod_lt _ (by decide))
+  have h3 := hexVal_hexDigit (c.toNat / 16 % 16) (Nat.mod_lt _ (by decide))
+  have h4 := hexVal_hexDigit (c.toNat % 16) (Nat.mod_lt _ (by decide))
+  have hsum : ((c.toNat / 256 / 16 % 16 * 16 + c.toNat / 256 % 16) * 16 + c.toNat / 16 % 16) * 16
+      + c.toNat % 16 = c.toNat := by omega
+  simp [hex4, hex2, lexS, escCase, escKind, cLF, cBS, cSQ, cDQ, hexCase, h1, h2, h3, h4, hsum,
+    ofCode_toNat]
+
+/-- `\UHHHHHHHH` -/
+theorem lexS_hex8 (q : Char) (c : Char) (rest : List Char) :
+    lexS false q .esc ('U' :: (hex8 c.toNat ++ rest)) = emit c (lexS false q .norm rest) := by
+  have hn : c.toNat < 0x110000 := by
+    have hv : c.toNat < 0xd800 ∨ (0xdfff < c.toNat ∧ c.toNat < 0x110000) := c.valid
+    omega
+  have h1 := hexVal_hexDigit (c.toNat / 65536 / 256 / 16 % 16) (Nat.mod_lt _ (by decide))
+  have h2 := hexVal_hexDigit (c.toNat / 65536 / 256 % 16) (Nat.mod_lt _ (by decide))
+  have h3 := hexVal_hexDigit (c.toNat / 65536 / 16 % 16) (Nat.mod_lt _ (by decide))
+  have h4 := hexVal_hexDigit (c.toNat / 65536 % 16) (Nat.mod_lt _ (by decide))
+  have h5 := hexVal_hexDigit (c.toNat / 256 / 16 % 16) (Nat.mod_lt _ (by decide))
+  have h6 := hexVal_hexDigit (c.toNat / 256 % 16) (Nat.mod_lt _ (by decide))
+  have h7 := hexVal_hexDigit (c.toNat / 16 % 16) (Nat.mod_lt _ (by decide))
+  have h8 := hexVal_hexDigit (c.toNat % 16) (Nat.mod_lt _ (by decide))
+  have hsum : ((((((c.toNat / 65536 / 256 / 16 % 16 * 16 + c.toNat / 65536 / 256 % 16) * 16
+      + c.toNat / 65536 / 16 % 16) * 16 + c.toNat / 65536 % 16) * 16 + c.toNat / 256 / 16 % 16) * 16
+      + c.toNat / 256 % 16) * 16 + c.toNat / 16 % 16) * 16 + c.toNat % 16 = c.toNat := by omega
+  simp [hex8, hex4, hex2, lexS, escCase, escKind, cLF, cBS, cSQ, cDQ, hexCase, h1, h2, h3, h4, h5,
+    h6, h7, h8, hsum, ofCode_toNat]
+
+theorem char_of_toNat {c : Char} {n : Nat} (h : c.toNat = n) : c = Char.ofNat n := by
+  rw [← h, Char.ofNat_toNat]
+
+/-- one character of `repr` lexes back to itself -/
+theorem lexS_reprChar (pr : Char → Bool) (q : Char) (hq : q = cSQ ∨ q = cDQ) (c : Char)
+    (rest : List Char) :
+    lexS false q .norm (reprChar pr q c ++ rest) = emit c (lexS false q .norm rest) := by
+  have hqb := q_ne_bs hq
+  have hbq : ¬ (cBS = q) := fun h => hqb h.symm
+  have raw : c ≠ q → c ≠ cBS → c ≠ cLF →
+      lexS false q .norm (c :: rest) = emit c (lexS false q .norm rest) := by
+    intro h1 h2 h3
+    simp [lexS, normCase, isClose, h1, h2, h3]
+  have esc : ∀ r, lexS false q .norm (cBS :: r) = lexS false q .esc r := by
+    intro r
+    cases r <;> simp [lexS, normCase, isClose, hbq]
+  unfold reprChar
+  simp only []
+  split
+  · -- the quote or a backslash
+    rename_i h
+    rw [List.cons_append, esc]
+    rcases h with h | h
+    · subst h
+      rcases hq with rfl | rfl <;> simp [lexS, escCase, escKind, cLF, cBS, cSQ, cDQ]
+    · subst h
+      simp [lexS, escCase, escKind, cLF, cBS]
+  · rename_i hnq
+    have hcq : c ≠ q := fun h => hnq (Or.inl h)
+    have hcb : c ≠ cBS := fun h => hnq (Or.inr h)
+    split
+    · rename_i h; rw [char_of_toNat h, List.cons_append, esc]
+      simp [lexS, escCase, escKind, cLF, cBS, cSQ, cDQ]
+    · split
+      · rename_i h; rw [char_of_toNat h, List.cons_append, esc]
+        simp [lexS, escCase, escKind, cLF, cBS, cSQ, cDQ]
+      · split
+        · rename_i h; rw [char_of_toNat h, List.cons_append, esc]
+          simp [lexS, escCase, escKind, cLF, cBS, cSQ, cDQ, cCR]
+        · rename_i h9 h10 h13
+          have hlf : c ≠ cLF := fun h => h10 (by rw [h]; rfl)
+          split
+          · rename_i h
+            rw [List.cons_append, esc, List.cons_append]
+            exact lexS_hex2 q c (by omega) rest
+          · split
+            · exact raw hcq hcb hlf
+            · split
+              · exact raw hcq hcb hlf
+              · split
+                · rename_i h
+                  rw [List.cons_append, esc, List.cons_append]
+                  exact lexS_hex2 q c h rest
+                · split
+                  · rename_i h
+                    rw [List.cons_append, esc, List.cons_append]
+                    exact lexS_hex4 q c h rest
+                  · rw [List.cons_append, esc, List.cons_append]
+                    exact lexS_hex8 q c rest
+
+theorem lexS_reprBody (pr : Char → Bool) (q : Char) (hq : q = cSQ ∨ q = cDQ) (cs : List Char) :
+    lexS false q .norm (reprBody pr q cs ++ [q]) = some cs := by
+  induction cs with
+  | nil => simp [reprBody, lexS, normCase, isClose, atEnd]
+  | cons c r ih =>
+    simp only [reprBody, List.append_assoc]
+    rw [lexS_reprChar pr q hq c, ih]
+    rfl
+
+theorem reprChar_ge (pr : Char → Bool) (q : Char) (hq : q = cSQ ∨ q = cDQ) (c : Char) :
+    ∀ d ∈ reprChar pr q c, 32 ≤ d.toNat := by
+  have hqge : 32 ≤ q.toNat := by rcases hq with rfl | rfl <;> decide
+  have hd1 := hexDigit_ge (c.toNat / 16 % 16) (Nat.mod_lt _ (by decide))
+  have hd2 := hexDigit_ge (c.toNat % 16) (Nat.mod_lt _ (by decide))
+  have hd3 := hexDigit_ge (c.toNat / 256 / 16 % 16) (Nat.mod_lt _ (by decide))
+  have hd4 := hexDigit_ge (c.toNat / 256 % 16) (Nat.mod_lt _ (by decide))
+  have hd5 := hexDigit_ge (c.toNat / 65536 / 256 / 16 % 16) (Nat.mod_lt _ (by decide))
+  have hd6 := hexDigit_ge (c.toNat / 65536 / 256 % 16) (Nat.mod_lt _ (by decide))
+  have hd7 := hexDigit_ge (c.toNat / 65536 / 16 % 16) (Nat.mod_lt _ (by decide))
+  have hd8 := hexDigit_ge (c.toNat / 65536 % 16) (Nat.mod_lt _ (by decide))
+  have hbs : 32 ≤ cBS.toNat := by decide
+  have hx : 32 ≤ 'x'.toNat := by decide
+  have hu : 32 ≤ 'u'.toNat := by decide
+  have hU : 32 ≤ 'U'.toNat := by decide
+  have ht : 32 ≤ 't'.toNat := by decide
+  have hn : 32 ≤ 'n'.toNat := by decide
+  have hr : 32 ≤ 'r'.toNat := by decide
+  intro d hd
+  unfold reprChar at hd
+  simp only [] at hd
+  split at hd
+  · rename_i h
+    simp only [List.mem_cons, List.not_mem_nil, or_false] at hd
+    rcases hd with rfl | rfl
+    · exact hbs
+    · rcases h with rfl | rfl
+      · exact hqge
+      · exact hbs
+  · split at hd
+    · simp only [List.mem_cons, List.not_mem_nil, or_false] at hd
+      rcases hd with rfl | rfl <;> assumption
+    · split at hd
+      · simp only [List.mem_cons, List.not_mem_nil, or_false] at hd
+        rcases hd with rfl | rfl <;> assumption
+      · split at hd
+        · simp only [List.mem_cons, List.not_mem_nil, or_false] at hd
+          rcases hd with rfl | rfl <;> assumption
+        · split at hd
+          · simp only [hex2, List.mem_cons, List.not_mem_nil, or_false] at hd
+            rcases hd with rfl | rfl | rfl | rfl <;> omega
+          · split at hd
+            · simp only [List.mem_cons, List.not_mem_nil, or_false] at hd
+              subst hd; omega
+            · split at hd
+              · simp only [List.mem_cons, List.not_mem_nil, or_false] at hd
+                subst hd; omega
+              · split at hd
+                · simp only [hex2, List.mem_cons, List.not_mem_nil, or_false] at hd
+                  rcases hd with rfl | rfl | rfl | rfl <;> omega
+                · split at hd
+                  · simp only [hex4, hex2, List.mem_cons, List.mem_append, List.not_mem_nil, or_false] at hd
+                    rcases hd with rfl | rfl | (rfl | rfl) | rfl | rfl <;> omega
+                  · simp only [hex8, hex4, hex2, List.mem_cons, List.mem_append, List.not_mem_nil, or_false] at hd
+                    rcases hd with rfl | rfl | ((rfl | rfl) | rfl | rfl) | (rfl | rfl) | rfl | rfl <;> omega
+
+theorem reprBody_ge (pr : Char → Bool) (q : Char) (hq : q = cSQ ∨ q = cDQ) (cs : List Char) :
+    ∀ d ∈ reprBody pr q cs, 32 ≤ d.toNat := by
+  induction cs with
+  | nil => intro d hd; simp [reprBody] at hd
+  | cons c r ih =>
+    intro d hd
+    simp only [reprBody, List.mem_append] at hd
+    rcases hd with hd | hd
+    · exact reprChar_ge pr q hq c d hd
+    · exact ih d hd
+
+/-- the first character of an escaped character is a backslash or the (non-quote) character -/
+theorem reprChar_head (pr : Char → Bool) (q c : Char) :
+    ∃ h t, reprChar pr q c = h :: t ∧ (h = cBS ∨ (h = c ∧ c ≠ q)) := by
+  unfold reprChar
+  simp only []
+  split
+  · exact ⟨_, _, rfl, Or.inl rfl⟩
+  · rename_i hnq
+    have hcq : c ≠ q := fun h => hnq (Or.inl h)
+    repeat' split
+    all_goals first
+      | exact ⟨_, _, rfl, Or.inl rfl⟩
+      | exact ⟨_, _, rfl, Or.inr ⟨rfl, hcq⟩⟩
+
+/-- `repr(s)` always lexes back to `s` -/
+theorem lexSrc_pyReprL (pr : Char → Bool) (cs : List Char) : lexSrc (pyReprL pr cs) = some cs := by
+  have hq : reprQuote cs = cSQ ∨ reprQuote cs = cDQ := by
+    unfold reprQuote; split <;> simp
+  have hge : ∀ d ∈ pyReprL pr cs, 32 ≤ d.toNat := by
+    intro d hd
+    simp only [pyReprL, List.mem_cons, List.mem_append, List.not_mem_nil, or_false] at hd
+    have hqge : 32 ≤ (reprQuote cs).toNat := by rcases hq with h | h <;> rw [h] <;> decide
+    rcases hd with rfl | hd | rfl
+    · exact hqge
+    · exact reprBody_ge pr _ hq cs d hd
+    · exact hqge
+  have hCR : ∀ d ∈ pyReprL pr cs, d ≠ cCR := by
+    intro d hd h
+    have := hge d hd
+    rw [h] at this
+    exact absurd this (by decide)
+  have hNUL : (pyReprL pr cs).contains cNUL = false := by
+    apply Bool.eq_false_iff.2
+    intro hcon
+    have := hge cNUL (List.contains_iff_mem.1 hcon)
+    exact absurd this (by decide)
+  have hbody := lexS_reprBody pr (reprQuote cs) hq cs
+  unfold lexSrc
+  rw [hNUL, normNewlines, nnl_id _ hCR]
+  simp only [pyReprL, Bool.false_eq_true, if_false]
+  rcases hq with h | h
+  · rw [h] at hbody ⊢
+    simp [hbody]
+  · rw [h] at hbody ⊢
+    have hne : ¬ (cDQ = cSQ) := by decide
+    simp only [hne, if_false, if_true]
+    have htake : ((reprBody pr cDQ cs ++ [cDQ]).take 2 == [cDQ, cDQ]) = false := by
+      cases cs with
+      | nil => simp [reprBody]
+      | cons c r =>
+        obtain ⟨hd, tl, he, hh⟩ := reprChar_head pr cDQ c
+        simp only [reprBody, he, List.cons_append, List.append_assoc]
+        have hdq : hd ≠ cDQ := by
+          rcases hh with rfl | ⟨rfl, hc⟩
+          · decide
+          · exact hc
+        cases htl : (tl ++ (reprBody pr cDQ r ++ [cDQ])) with
+        | nil => simp
+        | cons y ys => simp [hdq]
+    rw [htake]
+    simpa using hbody
+
+
 end Typedpy.PyLex
